@@ -102,13 +102,16 @@ func init() {
 		gdir := c.out + "/Gen"
 		os.MkdirAll(gdir, 0o755)
 		var v strings.Builder
-		v.WriteString("(* generated: coefficients and declared chromaticities probed from the current tree *)\nFrom Coq Require Import ZArith QArith List. Import ListNotations.\nFrom PrismV Require Import Mat.CoeffCheck.\nOpen Scope Z_scope.\n")
+		v.WriteString("(* generated: coefficients and declared chromaticities probed from the current tree *)\nFrom Coq Require Import ZArith QArith List. Import ListNotations.\nFrom PrismV Require Import Mat.CoeffCheck Mat.RoundTrip.\nOpen Scope Z_scope.\n")
 		for _, s := range xyzSpaces {
 			to, from := probeSpace(s)
 			w := s.toXYZ(1, 1, 1)
 			fmt.Fprintf(&v, "Definition %s_data : space_data := {| sd_to := [%s]; sd_from := [%s];\n  sd_prim := [%s]; sd_white_xyz := [%s] |}.\n", s.name,
 				bits32s(to[:]...), bits32s(from[:]...), bits32s(s.r.X, s.r.Y, s.g.X, s.g.Y, s.b.X, s.b.Y, s.w.X, s.w.Y), bits32s(w.X, w.Y, w.Z))
 			fmt.Fprintf(&v, "Lemma %s_ok : space_ok %s_data %s = true. Proof. vm_compute. reflexivity. Qed.\n", s.name, s.name, s.pub)
+			// the composed float32 round trips, bounded for every finite float32 triple from the 18 coefficients alone
+			fmt.Fprintf(&v, "Lemma %s_rt : rt_check_cols (sd_to %s_data) (sd_from %s_data) (2 # 1000000)%%Q = true. Proof. vm_compute. reflexivity. Qed.\n", s.name, s.name, s.name)
+			fmt.Fprintf(&v, "Lemma %s_rt_back : rt_check_cols (sd_from %s_data) (sd_to %s_data) (2 # 1000000)%%Q = true. Proof. vm_compute. reflexivity. Qed.\n", s.name, s.name, s.name)
 		}
 		os.WriteFile(gdir+"/Coeffs.v", []byte(v.String()), 0o644)
 		c.res.GenFiles = []string{"Coeffs.v"}
